@@ -57,7 +57,12 @@ Routes == { [name |-> "new",          dom |-> "i64",  checked |-> TRUE, total |-
             [name |-> "any_u64",      dom |-> "u64",  checked |-> TRUE, total |-> TRUE],
             [name |-> "any_i128",     dom |-> "i128", checked |-> TRUE, total |-> FALSE],
             [name |-> "any_key",      dom |-> "i64",  checked |-> TRUE, total |-> TRUE],
-            [name |-> "object_field", dom |-> "json", checked |-> TRUE, total |-> TRUE] }
+            [name |-> "object_field", dom |-> "json", checked |-> TRUE, total |-> TRUE],
+            (* two-step routes: a document is first parsed into the dynamic value, the safelong is taken from that *)
+            [name |-> "json_any",     dom |-> "json", checked |-> TRUE, total |-> TRUE],
+            [name |-> "json_any_key", dom |-> "json", checked |-> TRUE, total |-> TRUE],
+            [name |-> "json_any_nested", dom |-> "json", checked |-> TRUE, total |-> TRUE],
+            [name |-> "smile_any",    dom |-> "u64",  checked |-> TRUE, total |-> TRUE] }
 
 (* Mech: "ok" keeps the value; the unchecked routes accept everything in their (narrow) domain.            *)
 (* total = FALSE marks a route whose acceptance the property does not demand: a dynamic value built from a  *)
